@@ -334,6 +334,8 @@ class Interp:
         if isinstance(v, AnyOf):
             raise Unsupported("truth value of an unspecified value")
         if isinstance(v, str) and OPAQUE in v:
+            if v.replace(OPAQUE, ""):
+                return True         # formatted text with at least one literal character is non-empty
             raise Unsupported("truth value of opaque text")
         if hasattr(v, "__dict__") and self.is_repo_class(type(v)):
             m = self.find_in_mro(type(v), "__bool__") or self.find_in_mro(type(v), "__len__")
@@ -493,6 +495,8 @@ class Interp:
 
     def set_attr(self, obj, name, value):
         if isinstance(obj, SObj):
+            if name in SObj.__slots__:
+                raise Unsupported("attribute name %s clashes with an engine slot" % name)
             a, where = self.raw_lookup(obj.cls, name)
             if a is not _MISSING and isinstance(a, property):
                 if a.fset is None:
@@ -507,7 +511,7 @@ class Interp:
                 c = sym.ctx()
                 if c is not None:
                     c.writes.append((obj, name))
-            if self.guards and not self.in_region(obj.serial):
+            if self.guards and not self.in_region(obj.birth):
                 do, value = self.merge_write(value, obj.fields.get(name), name in obj.fields)
                 if not do:
                     return
